@@ -1,6 +1,7 @@
 import PersimVerif.Lemmas.MGHUb
 import PersimVerif.Lemmas.MGHLbSound
 import PersimVerif.Lemmas.MGHGreedy
+import PersimVerif.Lemmas.MGHBrute
 
 /-!
 # C05 — the mGH estimates always bracket the true modified Gromov–Hausdorff distance
@@ -47,13 +48,15 @@ def S5 : Mat := [[0, 1, 1, 1, 1], [1, 0, 2, 2, 2], [1, 2, 0, 2, 2], [1, 2, 2, 0,
 /-- a tree on 5 vertices of diameter 3 (a path 0-3-1-2 with a second leaf 4 at vertex 1) -/
 def T5 : Mat := [[0, 2, 3, 1, 3], [2, 0, 1, 1, 1], [3, 1, 0, 2, 2], [1, 1, 2, 0, 2], [3, 1, 2, 2, 0]]
 
-theorem P3_dist : DistMat P3 3 := distMat_of_check (by decide)
-theorem C4_dist : DistMat C4 4 := distMat_of_check (by decide)
-theorem K3_dist : DistMat K3 3 := distMat_of_check (by decide)
-theorem K4_dist : DistMat K4 4 := distMat_of_check (by decide)
-theorem P5_dist : DistMat P5 5 := distMat_of_check (by decide)
-theorem S5_dist : DistMat S5 5 := distMat_of_check (by decide)
-theorem T5_dist : DistMat T5 5 := distMat_of_check (by decide)
+/-- `C4` relabelled by the permutation `(0 2 1 3)` -/
+def C4' : Mat := [[0, 2, 1, 1], [2, 0, 1, 1], [1, 1, 0, 2], [1, 1, 2, 0]]
+
+/-- the concrete matrices are distance matrices (non-vacuity of the `DistMat` hypotheses) -/
+example : DistMat P3 3 ∧ DistMat C4 4 ∧ DistMat K3 3 ∧ DistMat K4 4 ∧ DistMat P5 5 ∧ DistMat S5 5 ∧
+    DistMat T5 5 :=
+  ⟨distMat_of_check (by decide), distMat_of_check (by decide), distMat_of_check (by decide),
+    distMat_of_check (by decide), distMat_of_check (by decide), distMat_of_check (by decide),
+    distMat_of_check (by decide)⟩
 
 section
 variable {DX DY : Mat} {n m : ℕ} [NeZero n] [NeZero m]
@@ -75,6 +78,14 @@ theorem curvature_is_principal (keyMul : ℕ → ℕ → ℤ) (D : Mat) (diam d 
     (largestBoundedCurvatureIdx keyMul D diam d).Sublist (List.range D.length) ∧
       (largestBoundedCurvatureIdx keyMul D diam d).Pairwise fun i j => d ≤ ent D i j :=
   largestBoundedCurvatureIdx_spec keyMul D diam d
+
+omit [NeZero n] [NeZero m] in
+/-- the recursion bound of the model's curvature loop (the number of kept rows) is never exhausted:
+    one more unit changes nothing, so the model's `0` case is reached only with no rows left -/
+theorem curvature_fuel_irrelevant (keyMul : ℕ → ℕ → ℤ) (D : Mat) (diam d fuel : ℕ) (idx : List ℕ)
+    (h : idx.length ≤ fuel) :
+    curvLoop keyMul D diam d (fuel + 1) idx = curvLoop keyMul D diam d fuel idx :=
+  curvLoop_fuel_succ keyMul D diam d fuel idx h
 
 example : largestBoundedCurvatureIdx (wrapMul 8) P5 4 2 = [0, 4] ∧
     largestBoundedCurvatureIdx (wrapMul 8) S5 2 2 = [1, 2, 3, 4] := by decide
@@ -132,6 +143,14 @@ example : checkAssignmentFeasibility (rowDistribution 3 [3]) (rowDistribution 3 
     checkAssignmentFeasibility (rowDistribution 3 [3, 3, 1]) (rowDistribution 3 [3, 1, 1, 1]) 2 = false ∧
     checkAssignmentFeasibility (rowDistribution 3 [3, 1, 1]) (rowDistribution 3 [2, 2, 3, 1]) 2 = true := by
   decide
+
+omit [NeZero n] [NeZero m] in
+/-- the recursion bound of the model's feasibility loop is never exhausted: any bound above
+    `(len rv − i) + (len ru − j)` gives the same answer (the model's `0` case is unreachable) -/
+theorem feasibility_fuel_irrelevant (w f1 f2 : ℕ) (rv ru : List ℕ) (i j : ℕ)
+    (h1 : (rv.length - i) + (ru.length - j) < f1) (h2 : (rv.length - i) + (ru.length - j) < f2) :
+    feasLoop w f1 rv ru i j = feasLoop w f2 rv ru i j :=
+  feasLoop_fuel_irrelevant w f1 f2 rv ru i j h1 h2
 
 /-- **`find_lb` is sound**: for all distance matrices of all sizes and every `keyMul`,
     `find_lb ≤ 2·mGH`. -/
@@ -271,6 +290,17 @@ theorem estimate_total (kmX kmY : ℕ → ℕ → ℤ) (pXY : List (List ℕ)) (
 example : estimate (wrapMul 8) (wrapMul 8) P3 C4 [[2, 0, 1]] [3] [[3, 1, 0, 2]] [1] = .ok (1, 1) := by
   decide
 
+/-! ### the search oracle of the harness -/
+
+/-- **the exhaustive search behind the driver command `mgh.spec` computes the specification**:
+    enumerating all `|Y|^|X|` and `|X|^|Y|` image lists gives exactly `2·mGH`. -/
+theorem exhaustive_oracle_correct (hn : DX.length = n) (hm : DY.length = m) :
+    mgh2Brute DX DY = some (mGH2 (matFn DX n) (matFn DY m)) :=
+  mgh2Brute_eq hn hm
+
+example : mgh2Brute P3 C4 = some 1 ∧ mgh2Brute K3 K3 = some 0 := by
+  decide +kernel
+
 /-! ### isomorphic graphs -/
 
 /-- isometric spaces are at distance 0 -/
@@ -297,9 +327,6 @@ theorem iso_lb_zero (hX : DistMat DX n) (hY : DistMat DY m)
   have := find_lb_sound hX hY kmX kmY
   rw [mGH2_eq_zero_of_isometric hiso] at this
   exact Nat.le_zero.1 this
-
-/-- `C4` relabelled by the permutation `(0 2 1 3)` -/
-def C4' : Mat := [[0, 2, 1, 1], [2, 0, 1, 1], [1, 1, 0, 2], [1, 1, 2, 0]]
 
 /-- the transposition `(1 2)` of the vertices -/
 def swap12 : Fin 4 ≃ Fin 4 where
